@@ -315,12 +315,14 @@ theorem main_gap_bound_spec (c : Consts) (env : Env) (hq : Quiet env) (D E : Nat
   have hclk : σ.clock ≤ (prologue c env σ).σ.clock := (prologue_step c env hq 0 0 σ).clk
   have hinv : GapInv σ.mods.length i D E m.interval (prologue c env σ).σ m :=
     ⟨by rw [pm], by rw [pm]; exact hm, he, rfl, hle⟩
-  have hr0 : RunInv σ.mods.length i D E m.interval (prologue c env σ).σ.clock (prologue c env σ).σ m
+  have hmx : Nat.max (m.lastMain + m.interval) (prologue c env σ).σ.clock = (prologue c env σ).σ.clock :=
+    Nat.max_eq_right (by omega)
+  have hr0 : RunInv σ.mods.length i D E m.interval (prologue c env σ).σ.clock m.lastMain (prologue c env σ).σ m
       (startsOf (prologue c env σ).evs i) := by
     rw [ps]
     exact ⟨fun ab hab => by simp [pairs] at hab, fun a ha => by simp at ha, fun t ht => by simp at ht,
       fun a ha => by simp at ha, fun _ => ⟨rfl, by omega⟩, Nat.le_refl _⟩
-  obtain ⟨m', _, hR⟩ := run_full c env hq D E hb σ.mods.length i m.interval (prologue c env σ).σ.clock hilt k
+  obtain ⟨m', _, hR⟩ := run_full c env hq D E hb σ.mods.length i m.interval (prologue c env σ).σ.clock m.lastMain hilt k
     (prologue c env σ).σ m (prologue c env σ).evs hinv hr0
   have hth : thread c env k σ = run c env k (prologue c env σ).σ (prologue c env σ).evs := rfl
   rw [← hth] at hR
@@ -357,15 +359,81 @@ theorem main_gap_bound_spec (c : Consts) (env : Env) (hq : Quiet env) (D E : Nat
       omega
   · cases hs : startsOf (thread c env k σ).evs i with
     | nil =>
-      have := (hR.fresh hs).1
+      have := (hR.fresh hs).2
+      rw [hmx] at this
+      unfold restAfter at this
+      have h6 : (σ.mods.length - 1 - i) * (D + E) ≤ σ.mods.length * (D + E) := Nat.mul_le_mul_right _ (by omega)
       show (thread c env k σ).σ.clock ≤ _
+      unfold sweepBound
       omega
     | cons x xs =>
       have := hR.head x (by rw [hs]; rfl)
-      have h6 : i * (D + E) ≤ σ.mods.length * (D + E) := Nat.mul_le_mul_right _ (by omega)
+      unfold firstBound at this
+      rw [hmx] at this
+      have h6 : σ.mods.length * (D + E) = (σ.mods.length - 1) * (D + E) + (D + E) := by
+        have : σ.mods.length = (σ.mods.length - 1) + 1 := by omega
+        conv => lhs; rw [this, Nat.add_mul, Nat.one_mul]
       show x ≤ _
       unfold sweepBound
       omega
+
+/-- **interval_change_next_wakeup (5): at run level.**  Let other threads do *anything* to the poll bookkeeping
+(`es`: interval changes, fast polling on/off, triggers, reconnects, in any number and order) in any state `σ0` of the
+loop between two turns — `σ` is the state after that, `m` what module `i` looks like then (its interval is the one in
+force after these commands, `interval_follows_commands`).  From there on, in every quiet bounded environment and for
+any number of turns: the first `doPoll i` starts no later than
+
+    max (last_main + new interval) (moment of the change)  +  one sweep
+
+(the monitor's `mainLimit`: `last_main ≤` the previous start), every later pair of consecutive starts is at most
+`new interval + one sweep` apart, and as long as there is no start the clock is within the same limit.  No assumption
+about `σ0` (the iterator may be alive, the event set, other modules due), except that `last_main` of the module is not
+later than its latest start — which every action and every turn preserves. -/
+theorem interval_change_takes_effect (c : Consts) (env : Env) (hq : Quiet env) (D E : Nat) (hb : Bounded env D E)
+    (σ0 : PollState) (es : List Ext) (i : Nat) (m0 : Mod) (hm0 : σ0.mods[i]? = some m0) (he0 : m0.enabled = true)
+    (hle0 : m0.lastMain ≤ m0.lastStart) (k : Nat) :
+    ∃ m, (applyExts es σ0).mods[i]? = some m ∧
+      GapsLe (startsOf (run c env k (applyExts es σ0) []).evs i) (m.interval + sweepBound σ0.mods.length D E) ∧
+      (∀ a, (startsOf (run c env k (applyExts es σ0) []).evs i).head? = some a →
+        a ≤ max (m.lastMain + m.interval) σ0.clock + sweepBound σ0.mods.length D E) ∧
+      (startsOf (run c env k (applyExts es σ0) []).evs i = [] →
+        (run c env k (applyExts es σ0) []).σ.clock ≤ max (m.lastMain + m.interval) σ0.clock + sweepBound σ0.mods.length D E) := by
+  obtain ⟨m, hm, hen, hl⟩ := applyExts_keeps es σ0 i m0 hm0
+  have he : m.enabled = true := by rw [hen]; exact he0
+  have hle := hl hle0
+  have hclk : (applyExts es σ0).clock = σ0.clock := applyExts_clock es σ0
+  have hlen : (applyExts es σ0).mods.length = σ0.mods.length := by
+    have := congrArg List.length (applyExts_statics es σ0)
+    simpa [statics] using this
+  have hilt : i < σ0.mods.length := by
+    rcases List.getElem?_eq_some_iff.1 hm0 with ⟨h, _⟩; exact h
+  have hinv : GapInv σ0.mods.length i D E m.interval (applyExts es σ0) m := ⟨hlen, hm, he, rfl, hle⟩
+  have hr0 : RunInv σ0.mods.length i D E m.interval σ0.clock m.lastMain (applyExts es σ0) m
+      (startsOf ([] : List Event) i) :=
+    ⟨fun ab hab => by simp [startsOf, pairs] at hab, fun a ha => by simp [startsOf] at ha,
+     fun t ht => by simp [startsOf] at ht, fun a ha => by simp [startsOf] at ha,
+     fun _ => ⟨rfl, by rw [hclk]; exact Nat.le_trans (Nat.le_max_right _ _) (Nat.le_add_right _ _)⟩,
+     by rw [hclk]; exact Nat.le_refl _⟩
+  obtain ⟨m', _, hR⟩ := run_full c env hq D E hb σ0.mods.length i m.interval σ0.clock m.lastMain hilt k
+    (applyExts es σ0) m [] hinv hr0
+  have h6 : σ0.mods.length * (D + E) = (σ0.mods.length - 1) * (D + E) + (D + E) := by
+    have : σ0.mods.length = (σ0.mods.length - 1) + 1 := by omega
+    conv => lhs; rw [this, Nat.add_mul, Nat.one_mul]
+  have hmaxeq : Nat.max (m.lastMain + m.interval) σ0.clock = max (m.lastMain + m.interval) σ0.clock := rfl
+  refine ⟨m, hm, gapsLe_mono _ _ _ (gapBound_le _ D E _ (by omega)) hR.gaps, ?_, ?_⟩
+  · intro a ha
+    have := hR.head a ha
+    unfold firstBound at this
+    rw [hmaxeq] at this
+    unfold sweepBound
+    omega
+  · intro hs
+    have := (hR.fresh hs).2
+    unfold restAfter at this
+    rw [hmaxeq] at this
+    have h7 : (σ0.mods.length - 1 - i) * (D + E) ≤ (σ0.mods.length - 1) * (D + E) := Nat.mul_le_mul_right _ (by omega)
+    unfold sweepBound
+    omega
 
 /-! ## refresh of the other parameters -/
 
@@ -579,6 +647,32 @@ example :
       (traceOf σ (thread exConsts exEnv 30 σ).evs (prologue exConsts exEnv σ).σ.clock (thread exConsts exEnv 30 σ).σ.clock 1) :=
   (bounds_from_thread_start exConsts exEnv exEnv_quiet 3 1 exEnv_bounded 1000 _ (fun _ _ => 0)
     (by decide) (by decide) 30).1
+
+/-- `interval_change_takes_effect` on the example thread: after 7 turns another thread switches fast polling on for
+module 0 (interval 10 so far) with interval 2 and triggers module 1; from then on module 0 is started every
+`≤ 2 + 16` ticks -/
+example : ∃ m, (applyExts [.setFastPoll 0 true 2, .trigger 1 true] (thread exConsts exEnv 7 exState).σ).mods[0]? = some m ∧
+    m.interval = 2 ∧
+    GapsLe (startsOf (run exConsts exEnv 20 (applyExts [.setFastPoll 0 true 2, .trigger 1 true]
+      (thread exConsts exEnv 7 exState).σ) []).evs 0) (2 + 16) := by
+  obtain ⟨m, hm, hg, _, _⟩ := interval_change_takes_effect exConsts exEnv exEnv_quiet 3 1 exEnv_bounded
+    (thread exConsts exEnv 7 exState).σ [.setFastPoll 0 true 2, .trigger 1 true] 0
+    ((thread exConsts exEnv 7 exState).σ.mods[0]?.getD default) (by decide +kernel) (by decide +kernel) (by decide +kernel) 20
+  refine ⟨m, hm, ?_, ?_⟩
+  · have h2 : ((applyExts [.setFastPoll 0 true 2, .trigger 1 true] (thread exConsts exEnv 7 exState).σ).mods[0]?.map (·.interval)) = some 2 := by
+      decide +kernel
+    rw [hm] at h2; simpa using h2
+  · have h2 : ((applyExts [.setFastPoll 0 true 2, .trigger 1 true] (thread exConsts exEnv 7 exState).σ).mods[0]?.map (·.interval)) = some 2 := by
+      decide +kernel
+    rw [hm] at h2
+    have h3 : m.interval = 2 := by simpa using h2
+    have h4 : (thread exConsts exEnv 7 exState).σ.mods.length = 3 := by decide +kernel
+    rw [h3, h4] at hg
+    exact hg
+
+/-- and the starts after the change really are that dense (several of them, 3 ticks apart — each `doPoll` lasts 3) -/
+example : (startsOf (run exConsts exEnv 20 (applyExts [.setFastPoll 0 true 2, .trigger 1 true]
+      (thread exConsts exEnv 7 exState).σ) []).evs 0).length ≥ 5 := by decide +kernel
 
 /-- `due_polled_this_turn` / `not_due_not_polled` on the first turn after start-up: module 1 is due and polled -/
 example : ∃ t, startsOf (turn exConsts exEnv (prologue exConsts exEnv exState).σ).evs 1 = [t] :=
